@@ -230,6 +230,13 @@ def judge(x, viol, cid, sig):
             if len(got) < must:
                 viol.append({"case": cid, "clause": "open-matching-subscription-receives", "sig": sig,
                              "detail": "%s/%s surely open and matching received %d frames of %s (expected >= %d)" % (cn, sid, len(got), eid[:8], must)})
+            # frames after the subscription's EOSE are live pushes by definition (stored results end at EOSE): at most one of them
+            if len(gens) == 1 and gens[0]["eose"] is not None:
+                late = [q for q in got if q > gens[0]["eose"]]
+                if len(late) > 1:
+                    viol.append({"case": cid, "clause": "no-extra-or-unwanted-push", "sig": sig,
+                                 "detail": "%s/%s received %d live pushes of %s after its EOSE (exactly once demanded)" % (cn, sid, len(late), eid[:8])})
+                    continue
             if len(got) > may:
                 viol.append({"case": cid, "clause": "no-extra-or-unwanted-push", "sig": sig,
                              "detail": "%s/%s received %d frames of %s (at most %d allowed: closed, replaced, non-matching or duplicate)" % (cn, sid, len(got), eid[:8], may)})
